@@ -633,7 +633,7 @@ from src.orchestrator.core import Orchestrator
 root = Path(sys.argv[2])
 o = Orchestrator(project_root=root)
 out = {}
-for p in sorted(root.glob("*.py")):
+for p in sorted(list(root.glob("*.py")) + list(root.glob("*.rs"))):
     out[p.name] = sorted({(v.rule_id, v.line) for v in o.lint_file(p)})
 print("RESULT" + json.dumps(out))
 """
@@ -651,6 +651,10 @@ def _embedding_files():
         files[f"whole-{wk}__module.py"] = (body, "whole-" + wk, [1])
         for pk, pre in LEADING_COMMENT_PREFIXES.items():
             files[f"whole-{wk}__after-{pk}.py"] = (pre + body, "whole-" + wk, [len(pre) + 1])
+    for ek, ex in RUST_EXAMPLES.items():
+        files[f"{ek}__module.rs"] = (_indent(ex, 0), ek, [1])
+        for ck, (head, ind, foot) in RUST_CONTEXTS.items():
+            files[f"{ek}__{ck}.rs"] = (head + _indent(ex, ind) + foot, ek, [len(head) + 1])
     for ek, ex in EMBED_EXAMPLES.items():
         base = PREAMBLE + _indent(ex, 0)
         files[f"{ek}__module.py"] = (base, ek, [len(PREAMBLE) + 1])
@@ -706,6 +710,24 @@ LEADING_COMMENT_PREFIXES = {
 }
 
 
+# Rust: documented violating examples x the module structures they can sit in (the test-context predicates of
+# src/analyzers/rust_context.py must only look at the example's OWN enclosing items and their OWN attributes)
+RUST_EXAMPLES = {
+    "rust-unwrap": "fn process_request(input: &str) -> i32 {\n    let data = parse(input).unwrap();\n    data\n}\n",
+    "rust-clone": "fn forward(data: Vec<u8>) {\n    let owned = data.clone();\n    send(owned);\n}\n",
+    "rust-blocking": "async fn load_config(p: &str) -> String {\n    let text = std::fs::read_to_string(p);\n    text.unwrap_or_default()\n}\n",
+}
+_CFG_TEST_MODULE = ["#[cfg(test)]", "mod tests {", "    #[test]", "    fn checks() { assert!(true); }", "}", ""]
+RUST_CONTEXTS = {
+    "inline-module": (["mod handlers {"], 4, ["}"]),
+    "after-a-cfg-test-module": (_CFG_TEST_MODULE + ["mod handlers {"], 4, ["}"]),
+    "top-level-after-a-cfg-test-module": (_CFG_TEST_MODULE, 0, []),
+    "after-a-test-function": (["#[test]", "fn earlier_test() { assert!(true); }", ""], 0, []),
+    "nested-modules": (["mod outer {", "    mod inner {"], 8, ["    }", "}"]),
+    "after-unrelated-items": (["use std::fmt;", "", "const LIMIT: u32 = 3;", "", "fn helper() -> u32 { LIMIT }", ""], 0, []),
+}
+
+
 RENAMABLE = ("result", "item", "line", "value", "count", "User", "TokenHasher", "process", "report", "token", "tokens", "data",
              "name", "_name", "get_name")
 
@@ -741,7 +763,8 @@ def c19_embedding_bounded(ctx):
         return {"name": f"c19-embedding-bounded/{name}", "kind": "bounded", "verdict": verdict, "solver": "native", "ms": 0.0,
                 "carries": True, "lineno": 0, "note": note, "tool": "real Orchestrator on generated files",
                 "witness_confirmed": verdict == "refuted",   # a refutation here IS a native observation
-                "budget": f"{len(EMBED_EXAMPLES)} examples x {len(EMBED_CONTEXTS) + 2} embeddings", "cases": len(files)}
+                "budget": f"{len(EMBED_EXAMPLES)} Python examples x {len(EMBED_CONTEXTS) + 3} embeddings, {len(RUST_EXAMPLES)} Rust "
+                          f"examples x {len(RUST_CONTEXTS)} module structures, whole-file examples, reuse scenario", "cases": len(files)}
     if not line:
         return [ob("driver", "unknown", "driver failed: " + (p.stderr or p.stdout)[-400:])]
     res = {k: [tuple(x) for x in v] for k, v in _json.loads(line[0][len("RESULT"):]).items()}
@@ -764,14 +787,18 @@ def c19_embedding_bounded(ctx):
             obs.append(ob(f"{ek}/{name[len(ek) + 2:-3]}", "discharged" if actual == expected else "refuted",
                           "same findings as without the leading comment lines (shifted with the text)" if actual == expected
                           else f"expected {expected}, the rule reports {actual}"))
-    for ek in EMBED_EXAMPLES:
-        base_name = f"{ek}__module.py"
+    all_examples = dict(EMBED_EXAMPLES)
+    all_examples.update(RUST_EXAMPLES)
+    for ek in all_examples:
+        ext = "rs" if ek in RUST_EXAMPLES else "py"
+        base_name = f"{ek}__module.{ext}"
         base_start = files[base_name][2][0]
         base = res.get(base_name, [])
         # the example's own rule(s): what the module-level copy reports inside the example's lines (file-level rules,
         # which report at line 1, are not part of the example)
-        nlines = len(EMBED_EXAMPLES[ek].rstrip("\n").split("\n"))
-        offsets = sorted({(r, ln - base_start) for r, ln in base if base_start <= ln < base_start + nlines})
+        nlines = len(all_examples[ek].rstrip("\n").split("\n"))
+        offsets = sorted({(r, ln - base_start) for r, ln in base if base_start <= ln < base_start + nlines
+                          and not r.startswith(("file-header", "file-placement"))})
         rules = {r for r, _ in offsets}
         if not offsets:
             obs.append(ob(f"{ek}/module", "refuted", "the documented-style violating example is not reported at module level"))
@@ -790,4 +817,5 @@ def c19_embedding_bounded(ctx):
             missed = [e for e in expected if e not in actual]
             obs.append(ob(f"{ek}/{emb}:every-occurrence-is-reported", "discharged" if not missed else "refuted",
                           "each copy is reported at its line" if not missed else f"not reported: {missed}"))
-    return obs
+    from contracts.c12_sites import reuse_scenario
+    return obs + reuse_scenario(ctx, "c19-embedding-bounded")
